@@ -88,11 +88,11 @@ def build_corpus(tier: str, seed: int = 0, extra_seed=None):
         add(f"hunt:{name}", "hunt", src, (both if name.startswith(("imports/", "star/")) or k % 4 == seed % 4 else [D]) if quick else both + pick_combos(k, 2))
     # round 5: statement-kind coverage (harness/c01_kinds.py).  Quick: of the carrier family the slice in which the loop
     # CAN be judged impossible to get past (constant-true while that falls through, non-empty literal for whose body ends
-    # in return) with one of the two guard forms, plus shard (seed mod 16) of the rest; everything in the thorough tier
+    # in return) with one of the two guard forms, plus shard (seed mod 16) of the rest; everything in the thorough tier (carrier x1, placement x2)
     for k, (name, src) in enumerate(c01_kinds.carrier_family()):
         capable = ":while_true:none:" in name or ":for_literal:return:" in name
         if not quick or (capable and k % 2 == seed % 2) or k % 16 == seed % 16:
-            add(f"kinds:carrier:{name}", "kinds", src, pick_combos(k + seed, 1 if quick else 2))
+            add(f"kinds:carrier:{name}", "kinds", src, pick_combos(k + seed, 1))       # 16 combinations rotate over the programs
     for k, (name, src) in enumerate(c01_kinds.placement_family()):
         if not quick or (":while_true:" in name and k % 2 == seed % 2) or k % 8 == seed % 8:
             add(f"kinds:placement:{name}", "kinds", src, pick_combos(k + seed + 1, 1 if quick else 2))
